@@ -1,12 +1,16 @@
 #!/bin/sh
-# usage: tools/try_seed.sh <seed dir> <prop> [tier]   -- apply a seeded change to /repo, run the check, undo.
-d=$1; p=$2; t=${3:-quick}
+# usage: tools/try_seed.sh <seed dir> <prop> [tier]
+# Apply a seeded change to a scratch worktree of /repo HEAD (outside /repo and /verif), run the check on it
+# (VERIF_REPO), remove the worktree.  /repo itself is never touched, so this can run next to anything else.
+d=$(readlink -f $1); p=$2; t=${3:-quick}; wt=/tmp/try-$(basename $d)-$$
 cd /verif
-if ! git -C /repo apply --check "$d/patch.diff" 2>/dev/null; then echo "PATCH DOES NOT APPLY: $d"; exit 3; fi
-git -C /repo apply "$d/patch.diff"
-./check $p --tier $t > /tmp/try_seed.out 2>&1; code=$?
-git -C /repo checkout -- .
-grep -c "^VIOLATION" /tmp/try_seed.out | sed "s/^/violations printed: /"
-grep "^VIOLATION" -A2 /tmp/try_seed.out | head -${LINES_SHOWN:-7} | cut -c1-400
-tail -1 /tmp/try_seed.out | cut -c1-300
+git -C /repo worktree add -q --detach $wt HEAD || exit 9
+if ! git -C $wt apply --check "$d/patch.diff" 2>/dev/null; then echo "PATCH DOES NOT APPLY: $d"; git -C /repo worktree remove --force $wt; exit 3; fi
+git -C $wt apply "$d/patch.diff"
+VERIF_REPO=$wt ./check $p --tier $t > /tmp/try_seed_$$.out 2>&1; code=$?
+git -C /repo worktree remove --force $wt
+grep -c "^VIOLATION" /tmp/try_seed_$$.out | sed "s/^/violations printed: /"
+grep "^VIOLATION" -A2 /tmp/try_seed_$$.out | head -${LINES_SHOWN:-7} | cut -c1-400
+tail -1 /tmp/try_seed_$$.out | cut -c1-300
+rm -f /tmp/try_seed_$$.out
 echo "exit=$code"
